@@ -381,6 +381,41 @@ class _Continue(Exception):
     pass
 
 
+class NeedDecision(Exception):
+    """fold_paths: the scripted decisions are used up at a condition that stays symbolic."""
+
+
+def fold_paths(run, max_paths=24):
+    """Path-wise symbolic folding: `run(decider)` builds its inputs afresh, creates a Folder whose `decider` is the one given, folds and
+    returns a result.  Every condition that stays symbolic is a case split; all decision sequences are enumerated depth first (no
+    feasibility reasoning: every syntactic path counts).  Returns [(decisions, result, error)] with decisions = [(condition, bool)],
+    error = the Refuse / Raised that ended the path (result None) or None.  Raises Refuse beyond max_paths."""
+    out, stack = [], [[]]
+    while stack:
+        script = stack.pop()
+        log = []
+        it = iter(script)
+
+        def decide(v, it=it, log=log):
+            try:
+                b = next(it)
+            except StopIteration:
+                raise NeedDecision()
+            log.append((v, b))
+            return b
+        try:
+            r = run(decide)
+            out.append((log, r, None))
+        except NeedDecision:
+            stack.append(script + [False])
+            stack.append(script + [True])
+        except (Refuse, Raised) as e:
+            out.append((log, None, e))
+        if len(out) + len(stack) > max_paths:
+            raise Refuse("more than %d paths" % max_paths)
+    return out
+
+
 class Folder:
     """Evaluate expressions / function bodies of the folding language.
 
@@ -398,6 +433,7 @@ class Folder:
         self.fold_all_methods = False   # symbolic mode: also fold methods that write object state (set by rules that observe that state)
         self.func_stack = []   # repository functions being folded (innermost last): context for resolving helpers / module constants
         self._modconst = {}
+        self.decider = None    # callable(symbolic condition) -> bool: case split on conditions that stay symbolic (see fold_paths)
 
     def _ctx_func(self):
         from . import flow
@@ -563,6 +599,8 @@ class Folder:
 
     def truth(self, v):
         if isinstance(v, (Opaque, Arr, Sym)):
+            if self.decider is not None and isinstance(v, (Opaque, Sym)):
+                return bool(self.decider(v))
             raise Refuse("truth value of opaque")
         return bool(v)
 
@@ -633,6 +671,12 @@ class Folder:
             if (isinstance(left, (Sym, Opaque)) or isinstance(right, (Sym, Opaque))) and left is not None and right is not None \
                     and not (isinstance(left, Opaque) and left.tag == "callable") and not (isinstance(right, Opaque) and right.tag == "callable"):
                 return Sym(self._CMPSYM[type(n.ops[0])], [left, right])
+            if isinstance(n.ops[0], (ast.Eq, ast.NotEq)) and isinstance(left, (list, tuple)) and isinstance(right, (list, tuple)) and len(left) == len(right) \
+                    and any(isinstance(x, (Sym, Opaque)) and not (isinstance(x, Opaque) and x.tag == "callable") for x in list(left) + list(right)) \
+                    and not all(x is y or (is_num(x) and is_num(y) and x == y) for x, y in zip(left, right)) \
+                    and not any(is_num(x) and is_num(y) and x != y for x, y in zip(left, right)):
+                # two sequences of symbolic entries: equal or not is not known (identity of the symbols decides nothing)
+                return Sym(self._CMPSYM[type(n.ops[0])], [list(left), list(right)])
         for op, c in zip(n.ops, n.comparators):
             right = self.ev(c, env)
             if not self._cmp(op, left, right):
